@@ -544,37 +544,54 @@ Qed.
 
 (* ---------- quiescence ---------- *)
 
-Definition quiescent (s : st) : Prop := first_runnable s = None.
+Definition quiescent (s : st) (held : list Z) : Prop := first_runnable s held = None.
 
-Lemma quiescent_none s : quiescent s -> forall e, In e (thr s) -> runnable s e = false.
+(* calls that are held back by the scheduler have not run since they registered *)
+Definition held_blocked (s : st) (held : list Z) : Prop :=
+  forall t p, In (t, p) (thr s) -> mem t held = true -> exists g, p = Blocked g.
+
+Lemma quiescent_none s held : quiescent s held -> forall e, In e (thr s) -> runnable s held e = false.
 Proof.
   unfold quiescent, first_runnable. intros Hq e Hi.
-  destruct (filter (runnable s) (thr s)) as [|e0 l] eqn:Ef; [|discriminate].
-  destruct (runnable s e) eqn:Er; [|reflexivity].
-  assert (In e (filter (runnable s) (thr s))) by (apply filter_In; tauto). rewrite Ef in H. destruct H.
+  destruct (filter (runnable s held) (thr s)) as [|e0 l] eqn:Ef; [|discriminate].
+  destruct (runnable s held e) eqn:Er; [|reflexivity].
+  assert (In e (filter (runnable s held) (thr s))) by (apply filter_In; tauto). rewrite Ef in H. destruct H.
 Qed.
 
-(* at a quiescent point no call waits while quota is free, and after GOAWAY/Close none waits *)
-Theorem quiescent_blocked_only_without_quota s : Inv s -> quiescent s ->
-  (dead s = true -> thr s = []) /\
-  (dead s = false -> thr s <> [] -> quota s <= 0).
+Lemma parked_in s held t : In t (parked s held) <-> (exists p, In (t, p) (thr s)) /\ mem t held = false.
 Proof.
-  intros H Hq. pose proof (quiescent_none s Hq) as Hn. split.
-  - intros Hd. destruct (thr s) as [|e l]; [reflexivity|].
-    specialize (Hn e (or_introl eq_refl)). unfold runnable in Hn. rewrite Hd in Hn. discriminate.
+  unfold parked. rewrite filter_In, in_map_iff. split.
+  - intros [([t0 p] & E & I) Hm]. cbn in E. subst t0. split; [eauto|]. now apply negb_true_iff.
+  - intros [(p & I) Hm]. split; [exists (t, p); tauto|]. now apply negb_true_iff.
+Qed.
+
+(* at a quiescent point no call is parked in its select while quota is free, and after
+   GOAWAY/Close none is parked at all *)
+Theorem quiescent_blocked_only_without_quota s held : Inv s -> quiescent s held -> held_blocked s held ->
+  (dead s = true -> parked s held = []) /\
+  (dead s = false -> parked s held <> [] -> quota s <= 0).
+Proof.
+  intros H Hq Hb. pose proof (quiescent_none s held Hq) as Hn. split.
+  - intros Hd. destruct (parked s held) as [|t l] eqn:Ep; [reflexivity|]. exfalso.
+    assert (Hi : In t (parked s held)) by (rewrite Ep; now left).
+    apply parked_in in Hi as [(p & Hi) Hm]. specialize (Hn _ Hi).
+    unfold runnable in Hn. cbn [fst] in Hn. rewrite Hm, Hd in Hn. discriminate.
   - intros Hd Hne. destruct (Z_lt_le_dec 0 (quota s)) as [Hpos|]; [|assumption]. exfalso.
-    destruct (thr s) as [|[t p] l] eqn:Et; [congruence|].
-    assert (Hall : forall t p, In (t, p) (thr s) -> exists g, p = Blocked g /\ can_recv s g = false).
-    { intros t0 p0 Hi. rewrite Et in Hi. specialize (Hn _ Hi). unfold runnable in Hn. rewrite Hd in Hn. cbn in Hn.
-      destruct p0 as [g|]; [eauto|discriminate]. }
-    destruct (Hall t p) as (g & -> & Hc); [rewrite Et; now left|].
-    assert (Hi : In (t, Blocked g) (thr s)) by (rewrite Et; now left).
+    destruct (parked s held) as [|t l] eqn:Ep; [congruence|].
+    assert (Hi : In t (parked s held)) by (rewrite Ep; now left).
+    apply parked_in in Hi as [(p & Hi) Hm].
+    assert (Hall : forall t p, In (t, p) (thr s) -> mem t held = false -> exists g, p = Blocked g /\ can_recv s g = false).
+    { intros t0 p0 Hi0 Hm0. specialize (Hn _ Hi0). unfold runnable in Hn. cbn [fst snd] in Hn.
+      rewrite Hm0, Hd in Hn. cbn in Hn. destruct p0 as [g|]; [eauto|discriminate]. }
+    destruct (Hall t p Hi Hm) as (g & -> & Hc).
     destruct (j_gen s H) as (G1 & G2 & G3 & G4).
     unfold can_recv in Hc. apply orb_false_iff in Hc as [Hc1 Hc2].
     destruct (G3 g (j_thr s H t g Hi)) as [->|I]; [|apply mem_in in I; congruence].
     rewrite Z.eqb_refl in Hc2. cbn in Hc2.
     destruct (j_wake s H Hd Hpos) as [T|(t' & R)]; [eauto|congruence|].
-    destruct (Hall t' Retry R) as (? & E & _). discriminate.
+    destruct (mem t' held) eqn:Hm'.
+    + destruct (Hb t' Retry R Hm') as (? & E). discriminate.
+    + destruct (Hall t' Retry R Hm') as (? & E & _). discriminate.
 Qed.
 
 (* ---------- running to quiescence terminates within the fuel ---------- *)
@@ -620,12 +637,12 @@ Proof.
   destruct (token s); lia.
 Qed.
 
-Lemma first_runnable_some s t : Inv s -> first_runnable s = Some t ->
-  exists p, lookup t (thr s) = Some p /\ runnable s (t, p) = true.
+Lemma first_runnable_some s held t : Inv s -> first_runnable s held = Some t ->
+  exists p, lookup t (thr s) = Some p /\ runnable s held (t, p) = true.
 Proof.
-  intros H. unfold first_runnable. destruct (filter (runnable s) (thr s)) as [|[t0 p0] l] eqn:Ef; [discriminate|].
+  intros H. unfold first_runnable. destruct (filter (runnable s held) (thr s)) as [|[t0 p0] l] eqn:Ef; [discriminate|].
   intros E. inversion E; subst. cbn [fst] in *.
-  assert (Hi : In (t, p0) (filter (runnable s) (thr s))) by (rewrite Ef; now left).
+  assert (Hi : In (t, p0) (filter (runnable s held) (thr s))) by (rewrite Ef; now left).
   apply filter_In in Hi as [Hi Hr]. exists p0. split; [|assumption].
   apply in_lookup_nodup; [apply H|assumption].
 Qed.
@@ -650,10 +667,13 @@ Proof.
     rewrite Hc in H0. destruct (token s); lia.
 Qed.
 
-Lemma iter_decr s t : Inv s -> first_runnable s = Some t ->
+Lemma iter_decr s held t : Inv s -> first_runnable s held = Some t ->
+  mem t held = false /\
   (mu (exec s [ARecv t; ARetry t]) < mu s)%nat.
 Proof.
-  intros H Hf. destruct (first_runnable_some s t H Hf) as (p & El & Hr).
+  intros H Hf. destruct (first_runnable_some s held t H Hf) as (p & El & Hr).
+  unfold runnable in Hr. cbn [fst snd] in Hr. apply andb_true_iff in Hr as [Hh Hr].
+  apply negb_true_iff in Hh. split; [exact Hh|].
   change (exec s [ARecv t; ARetry t]) with (fst (astep (fst (astep s (ARecv t))) (ARetry t))).
   destruct (dead s) eqn:Hd.
   - (* everyone leaves *)
@@ -662,7 +682,7 @@ Proof.
     rewrite E1. unfold astep. cbn [dead set_thr thr]. rewrite Hd.
     rewrite (notin_lookup_none t _ (remove_t_gone t _ (j_keys s H))). cbn [fst].
     unfold mu. cbn. rewrite Hd. pose proof (remove_t_len t _ _ El). lia.
-  - unfold runnable in Hr. rewrite Hd in Hr. cbn in Hr. destruct p as [g|].
+  - cbn in Hr. destruct p as [g|].
     + (* blocked and able to receive *)
       pose proof (astep_inv s (ARecv t) H) as H1.
       assert (E1 : lookup t (thr (fst (astep s (ARecv t)))) = Some Retry /\
@@ -687,18 +707,26 @@ Lemma exec_app s l1 l2 : exec s (l1 ++ l2) = exec (exec s l1) l2.
 Proof. unfold exec. apply fold_left_app. Qed.
 
 Definition wact (a : act) : Prop := match a with ARecv _ | ARetry _ => True | _ => False end.
+Definition wact_on (held : list Z) (a : act) : Prop :=
+  match a with ARecv t | ARetry t => mem t held = false | _ => False end.
 
-Lemma settle_spec : forall f s, Inv s ->
-  exists l, Forall wact l /\ settle f s = exec s l /\ ((mu s < f)%nat -> quiescent (settle f s)).
+Lemma wact_on_wact held : forall l, Forall (wact_on held) l -> Forall wact l.
 Proof.
-  induction f as [|f IH]; intros s H; cbn [settle].
+  intros l H. eapply Forall_impl; [|exact H]. intros a Ha. destruct a; cbn in *; tauto.
+Qed.
+
+Lemma settle_spec : forall f held s, Inv s ->
+  exists l, Forall (wact_on held) l /\ settle f held s = exec s l /\
+            ((mu s < f)%nat -> quiescent (settle f held s) held).
+Proof.
+  induction f as [|f IH]; intros held s H; cbn [settle].
   - exists []. split; [constructor|]. split; [reflexivity|lia].
-  - destruct (first_runnable s) as [t|] eqn:Ef.
+  - destruct (first_runnable s held) as [t|] eqn:Ef.
     + pose proof (exec_inv [ARecv t; ARetry t] s H) as H1.
-      destruct (IH _ H1) as (l & Fl & El & Ql).
+      destruct (iter_decr s held t H Ef) as [Hh Hdec].
+      destruct (IH held _ H1) as (l & Fl & El & Ql).
       exists ([ARecv t; ARetry t] ++ l). split; [repeat constructor; assumption|].
-      split; [rewrite exec_app; assumption|]. intros Hm. apply Ql.
-      pose proof (iter_decr s t H Ef). lia.
+      split; [rewrite exec_app; assumption|]. intros Hm. apply Ql. lia.
     + exists []. split; [constructor|]. split; [reflexivity|]. intros _. exact Ef.
 Qed.
 
@@ -778,24 +806,25 @@ Qed.
 
 Definition op_wf (op : word) : bool :=
   match op with
-  | [1] | [2; _] | [3; _; _] | [4; _] | [5; _] | [6; _] => true
+  | [1] | [2; _] | [3; _; _] | [4; _] | [5; _] | [6; _] | [7] | [8; _] => true
   | _ => false
   end.
 
 Inductive shape : word -> Prop :=
 | sh1 : shape [1] | sh2 v : shape [2; v] | sh3 k h : shape [3; k; h]
-| sh4 k : shape [4; k] | sh5 k : shape [5; k] | sh6 w : shape [6; w].
+| sh4 k : shape [4; k] | sh5 k : shape [5; k] | sh6 w : shape [6; w]
+| sh7 : shape [7] | sh8 k : shape [8; k].
 
 Lemma op_wf_shape op : op_wf op = true -> shape op.
 Proof.
   intros H. destruct op as [|a l]; [discriminate|].
   destruct a as [|p|p]; try discriminate H.
-  destruct p as [[[p|p|]|[p|p|]|]|[[p|p|]|[p|p|]|]|]; try discriminate H;
+  destruct p as [[[[p|p|]|[p|p|]|]|[[p|p|]|[p|p|]|]|]|[[[p|p|]|[p|p|]|]|[[p|p|]|[p|p|]|]|]|]; try discriminate H;
     destruct l as [|x1 [|x2 [|x3 l]]]; try discriminate H; constructor.
 Qed.
 
 Definition mx_of (op : word) (d : Z) : Z := match op with [2; v] => v | _ => d end.
-Definition dd_of (op : word) : bool := match op with [5; _] => true | _ => false end.
+Definition dd_of (t : trk) (op : word) : bool := match op with [5; _] => t_nh t =? 0 | _ => false end.
 
 Lemma take_n_app n : forall (l r : list Z), length l = n -> take_n n (l ++ r) = Some (l, r).
 Proof.
@@ -809,47 +838,140 @@ Proof. induction w as [|x w IH]; cbn; [reflexivity|]. now rewrite Z.eqb_refl. Qe
 Lemma skipn_app_exact (l l' : list Z) : skipn (length l) (l ++ l') = l'.
 Proof. induction l as [|x l IH]; cbn; [reflexivity|assumption]. Qed.
 
-Definition the_clauses (t : trk) (mx' : Z) (dd : bool) (q no nb : Z) (new : list Z) : list (Z * Z * bool) :=
+Definition the_clauses (t : trk) (mx' : Z) (dd : bool) (q no nb nh : Z) (new : list Z) : list (Z * Z * bool) :=
   let n := Z.of_nat (length new) in
   [(3, n, (0 <=? n) && incr_odd (t_last t) new && word_eqb new new);
    (1, q, dd || (q + no =? mx'));
    (2, no, dd || (n <=? 0) || (no <=? mx'));
-   (4, nb, dd || (nb <=? 0) || (q <=? 0));
+   (4, nb - nh, dd || (nb - nh <=? 0) || (q <=? 0));
    (5, nb, negb dd || ((nb =? 0) && (n =? 0)))].
 
-Lemma cl_op_eq t op q w no nb c tm new :
-  cl_op t op ([q; w; no; nb; c; tm; Z.of_nat (length new)] ++ new ++ new) =
-  (mkt (mx_of op (t_max t)) (last new (t_last t)) (dd_of op),
-   the_clauses t (mx_of op (t_max t)) (dd_of op) q no nb new).
+Lemma cl_op_eq t op q w no nb nh c tm new :
+  cl_op t op ([q; w; no; nb; nh; c; tm; Z.of_nat (length new)] ++ new ++ new) =
+  (mkt (mx_of op (t_max t)) (last new (t_last t)) nh (dd_of t op),
+   the_clauses t (mx_of op (t_max t)) (dd_of t op) q no nb nh new).
 Proof.
   unfold cl_op. cbn [app]. rewrite Nat2Z.id, take_n_app by reflexivity. reflexivity.
 Qed.
 
-Definition Sim (s : st) (t : trk) : Prop :=
-  Inv s /\ quiescent s /\ t_max t = maxc s /\ t_last t = last (adm s) 0 /\ t_dead t = dead s.
-
-Lemma finish_step s t s1 mx' dd : Sim s t -> Inv s1 -> (exists l, adm s1 = adm s ++ l) ->
-  (adm s1 = adm s \/ 0 <= quota s1) -> maxc s1 = mx' -> dead s1 = dd -> (dd = true -> adm s1 = adm s) ->
-  let s2 := settle (fuel_of s1) s1 in
-  let new := skipn (length (adm s)) (adm s2) in
-  Sim s2 (mkt mx' (last new (t_last t)) dd) /\
-  forallb (fun c : Z * Z * bool => snd c)
-    (the_clauses t mx' dd (quota s2) (Z.of_nat (length (open s2))) (Z.of_nat (length (thr s2))) new) = true.
+(* thread-table bookkeeping of waiter steps *)
+Lemma wstep_thr s a t : a = ARecv t \/ a = ARetry t ->
+  (forall e, In e (thr (fst (astep s a))) -> fst e = t \/ In e (thr s)) /\
+  (forall k, In k (map fst (thr (fst (astep s a)))) -> In k (map fst (thr s))).
 Proof.
-  intros (H & Hq & Tm & Tl & Td) H1 (l1 & A1) Q1 M1 D1 DA. cbn zeta.
-  destruct (settle_spec (fuel_of s1) s1 H1) as (l & Fl & El & Ql).
+  intros Ha.
+  assert (Hset : forall p l, lookup t l <> None -> (forall e, In e (set_t t p l) -> fst e = t \/ In e l) /\
+                        (forall k, In k (map fst (set_t t p l)) -> In k (map fst l))).
+  { intros p l _. split; [intros e He; apply set_t_in in He as [->|He]; [now left|now right]|].
+    now rewrite keys_set_t. }
+  assert (Hrem : forall l, (forall e, In e (remove_t t l) -> fst e = t \/ In e l) /\
+                      (forall k, In k (map fst (remove_t t l)) -> In k (map fst l))).
+  { intros l. split; [intros e He; right; eapply remove_t_incl; eassumption|apply remove_t_keys_incl]. }
+  assert (Hid : (forall e, In e (thr s) -> fst e = t \/ In e (thr s)) /\
+                (forall k, In k (map fst (thr s)) -> In k (map fst (thr s)))) by tauto.
+  unfold astep. destruct (dead s) eqn:Hd.
+  - destruct Ha as [-> | ->]; destruct (lookup t (thr s)); cbn [fst]; try exact Hid; cbn; apply Hrem.
+  - destruct Ha as [-> | ->].
+    + destruct (lookup t (thr s)) as [[g|]|] eqn:El; cbn [fst]; try exact Hid.
+      destruct (mem g (cg s)); cbn [fst]; [cbn; apply Hset; congruence|].
+      destruct ((g =? cur s) && token s); cbn [fst]; [cbn; apply Hset; congruence|exact Hid].
+    + destruct (lookup t (thr s)) as [[g|]|] eqn:El; cbn [fst]; try exact Hid.
+      destruct (try_admit s false) as [s1 [id|]] eqn:Ea; cbn [fst].
+      * apply try_admit_some in Ea. destruct Ea as (_ & _ & _ & _ & _ & _ & _ & _ & _ & _ & _ & Et & _).
+        cbn. rewrite Et. apply Hrem.
+      * apply try_admit_none in Ea. destruct Ea as (_ & _ & _ & _ & _ & _ & _ & _ & _ & _ & Et & _).
+        cbn. rewrite Et. apply Hset. congruence.
+Qed.
+
+Lemma held_exec held : forall l s, Forall (wact_on held) l -> held_blocked s held ->
+  held_blocked (exec s l) held /\
+  (forall k, In k (map fst (thr (exec s l))) -> In k (map fst (thr s))).
+Proof.
+  induction l as [|a l IH]; intros s Hf Hb; [cbn; tauto|].
+  inversion Hf as [|? ? Ha Hl]; subst. rewrite exec_cons.
+  assert (Ht : exists t, (a = ARecv t \/ a = ARetry t) /\ mem t held = false).
+  { destruct a; cbn in Ha; try tauto; eauto. }
+  destruct Ht as (t & Hat & Hm). destruct (wstep_thr s a t Hat) as [W1 W2].
+  assert (Hb1 : held_blocked (fst (astep s a)) held).
+  { intros t0 p Hi Hm0. destruct (W1 _ Hi) as [E|I]; [cbn in E; congruence|now apply (Hb t0 p)]. }
+  destruct (IH _ Hl Hb1) as [A B]. split; [assumption|]. intros k Hk. apply W2, B, Hk.
+Qed.
+
+(* operations other than waiter steps create only blocked entries *)
+Lemma opact_thr s a : (forall t, a <> ARecv t) -> (forall t, a <> ARetry t) ->
+  forall e, In e (thr (fst (astep s a))) -> (exists g, snd e = Blocked g) \/ In e (thr s).
+Proof.
+  intros N1 N2. unfold astep. destruct (dead s) eqn:Hd.
+  - destruct a as [t|t|t|t|id|v|k]; cbn [fst]; try tauto; try (exfalso; eapply N1; reflexivity);
+      try (exfalso; eapply N2; reflexivity).
+    destruct (lookup t (thr s)); cbn; [|tauto]. intros e He. right. eapply remove_t_incl; eassumption.
+  - destruct a as [t|t|t|t|id|v|k]; try (exfalso; eapply N1; reflexivity); try (exfalso; eapply N2; reflexivity).
+    + destruct (lookup t (thr s)); cbn [fst]; [tauto|].
+      destruct (try_admit s true) as [s1 [id|]] eqn:Ea; cbn [fst].
+      * apply try_admit_some in Ea. destruct Ea as (_ & _ & _ & _ & _ & _ & _ & _ & _ & _ & _ & Et & _).
+        rewrite Et. tauto.
+      * apply try_admit_none in Ea. destruct Ea as (_ & _ & _ & _ & _ & _ & _ & _ & _ & _ & Et & _).
+        cbn. rewrite Et. intros e He. apply in_app_or in He as [He|[<-|[]]]; [now right|left; cbn; eauto].
+    + destruct (lookup t (thr s)) as [[g|]|]; cbn; try tauto. intros e He. right. eapply remove_t_incl; eassumption.
+    + destruct (mem id (open s)); cbn; tauto.
+    + destruct ((v - maxc s >? 0) && (waiting s >? 0)); cbn; tauto.
+    + cbn. tauto.
+Qed.
+
+Lemma filter_split {A} (f : A -> bool) : forall l,
+  (length (filter f l) + length (filter (fun x => negb (f x)) l) = length l)%nat.
+Proof.
+  induction l as [|x l IH]; [reflexivity|]. cbn. destruct (f x); cbn; lia.
+Qed.
+
+Lemma thr_split s held :
+  Z.of_nat (length (thr s)) - Z.of_nat (length (held_in s held)) = Z.of_nat (length (parked s held)).
+Proof.
+  unfold held_in, parked. pose proof (filter_split (fun t => mem t held) (map fst (thr s))) as F.
+  rewrite map_length in F. lia.
+Qed.
+
+Definition all_blocked (s : st) : Prop := forall t p, In (t, p) (thr s) -> exists g, p = Blocked g.
+
+Definition Sim (s : st) (held : list Z) (t : trk) : Prop :=
+  Inv s /\ quiescent s held /\ held_blocked s held /\ t_max t = maxc s /\ t_last t = last (adm s) 0 /\
+  t_nh t = Z.of_nat (length (held_in s held)) /\ t_dead t = dead s.
+
+Lemma sim_all_blocked s held t : Sim s held t -> dead s = false -> all_blocked s.
+Proof.
+  intros (H & Hq & Hb & _) Hd t0 p Hi. destruct (mem t0 held) eqn:Hm; [now apply (Hb t0 p)|].
+  pose proof (quiescent_none s held Hq _ Hi) as Hn. unfold runnable in Hn. cbn [fst snd] in Hn.
+  rewrite Hm, Hd in Hn. cbn in Hn. destruct p as [g|]; [eauto|discriminate].
+Qed.
+
+Lemma finish_step s held t s1 held' mx' dd : Sim s held t -> Inv s1 -> all_blocked s1 ->
+  (exists l, adm s1 = adm s ++ l) ->
+  (adm s1 = adm s \/ 0 <= quota s1) -> maxc s1 = mx' -> dead s1 = dd ->
+  (dd = true -> adm s1 = adm s /\ held_in s1 held' = []) ->
+  let s2 := settle (fuel_of s1) held' s1 in
+  let new := skipn (length (adm s)) (adm s2) in
+  Sim s2 held' (mkt mx' (last new (t_last t)) (Z.of_nat (length (held_in s2 held'))) dd) /\
+  forallb (fun c : Z * Z * bool => snd c)
+    (the_clauses t mx' dd (quota s2) (Z.of_nat (length (open s2))) (Z.of_nat (length (thr s2)))
+                 (Z.of_nat (length (held_in s2 held'))) new) = true.
+Proof.
+  intros (H & Hq & Hb & Tm & Tl & Tn & Td) H1 AB1 (l1 & A1) Q1 M1 D1 DA. cbn zeta.
+  destruct (settle_spec (fuel_of s1) held' s1 H1) as (l & Fl & El & Ql).
   specialize (Ql (mu_lt_fuel s1)).
-  set (s2 := settle (fuel_of s1) s1) in *.
+  set (s2 := settle (fuel_of s1) held' s1) in *.
   assert (H2 : Inv s2) by (rewrite El; now apply exec_inv).
-  destruct (wexec_props l s1 Fl) as (B1 & B2 & (l2 & B3) & B4). cbn zeta in *. rewrite <- El in *.
+  destruct (wexec_props l s1 (wact_on_wact held' l Fl)) as (B1 & B2 & (l2 & B3) & B4). cbn zeta in *.
+  assert (Hb1 : held_blocked s1 held') by (intros t0 p Hi _; now apply (AB1 t0 p)).
+  destruct (held_exec held' l s1 Fl Hb1) as [Hb2 Hk2]. rewrite <- El in *.
   assert (Enew : skipn (length (adm s)) (adm s2) = l1 ++ l2).
   { rewrite B3, A1, <- app_assoc. apply skipn_app_exact. }
   rewrite Enew. set (new := l1 ++ l2) in *.
   assert (Eadm : adm s2 = adm s ++ new) by (unfold new; rewrite B3, A1, app_assoc; reflexivity).
-  destruct (quiescent_blocked_only_without_quota s2 H2 Ql) as [QD QB].
+  destruct (quiescent_blocked_only_without_quota s2 held' H2 Ql Hb2) as [QD QB].
+  pose proof (thr_split s2 held') as Hsplit.
   split.
-  - unfold Sim. split; [exact H2|]. split; [exact Ql|]. cbn [t_max t_last t_dead].
-    split; [congruence|]. split; [|congruence].
+  - unfold Sim. split; [exact H2|]. split; [exact Ql|]. split; [exact Hb2|]. cbn [t_max t_last t_nh t_dead].
+    split; [congruence|]. split; [|split; [reflexivity|congruence]].
     rewrite Eadm, last_app_z, Tl. reflexivity.
   - unfold the_clauses. cbn [forallb snd]. rewrite !andb_true_iff. repeat split.
     + apply Z.leb_le. lia.
@@ -869,69 +991,97 @@ Proof.
           apply app_inv_head in Eadm. congruence. }
         rewrite H0 in G. cbn in G. lia. }
       lia.
-    + destruct dd; [reflexivity|]. cbn [orb].
-      destruct (Z.leb_spec (Z.of_nat (length (thr s2))) 0) as [L|G]; [reflexivity|]. cbn [orb].
+    + destruct dd; [reflexivity|]. cbn [orb]. rewrite Hsplit.
+      destruct (Z.leb_spec (Z.of_nat (length (parked s2 held'))) 0) as [L|G]; [reflexivity|]. cbn [orb].
       apply Z.leb_le. apply QB; [congruence|]. intros E. rewrite E in G. cbn in G. lia.
-    + destruct dd; [|reflexivity]. cbn [negb orb]. rewrite (QD ltac:(congruence)). cbn.
+    + destruct dd; [|reflexivity]. cbn [negb orb]. destruct (DA eq_refl) as [DA1 DA2].
+      assert (Hh : held_in s2 held' = []).
+      { destruct (held_in s2 held') as [|k r] eqn:Eh; [reflexivity|]. exfalso.
+        assert (Hi : In k (held_in s2 held')) by (rewrite Eh; now left).
+        unfold held_in in Hi. apply filter_In in Hi as [Hi Hm].
+        assert (In k (held_in s1 held')) by (unfold held_in; apply filter_In; split; [now apply Hk2|assumption]).
+        rewrite DA2 in H0. destruct H0. }
+      rewrite (QD ltac:(congruence)), Hh in Hsplit. cbn [length] in Hsplit.
+      assert (Z.of_nat (length (thr s2)) = 0) by lia. rewrite H0. cbn.
       assert (new = []).
       { destruct B4 as [[B4 _]|[_ B4]]; [|congruence].
-        rewrite B4, (DA eq_refl) in Eadm. rewrite <- (app_nil_r (adm s)) in Eadm at 1.
+        rewrite B4, DA1 in Eadm. rewrite <- (app_nil_r (adm s)) in Eadm at 1.
         apply app_inv_head in Eadm. congruence. }
-      rewrite H0. reflexivity.
+      rewrite H3. reflexivity.
 Qed.
 
-Lemma op_step_ok s t tid op : Sim s t -> dead s = false -> op_wf op = true ->
-  exists s' o, op_step s tid op = Some (s', o) /\ Sim s' (fst (cl_op t op o)) /\
+Lemma op_step_ok s held t tid op : Sim s held t -> dead s = false -> op_wf op = true ->
+  exists s' held' o, op_step s held tid op = Some (s', held', o) /\ Sim s' held' (fst (cl_op t op o)) /\
                forallb (fun c : Z * Z * bool => snd c) (snd (cl_op t op o)) = true.
 Proof.
-  intros S Hd Hw. pose proof S as (H & Hq & Tm & Tl & Td).
-  assert (Hnone : mx_of op (t_max t) = maxc s -> dd_of op = false ->
-            op_act s tid op = Some [] ->
-            exists s' o, op_step s tid op = Some (s', o) /\ Sim s' (fst (cl_op t op o)) /\
+  intros S Hd Hw. pose proof S as (H & Hq & Hb & Tm & Tl & Tn & Td).
+  pose proof (sim_all_blocked s held t S Hd) as AB.
+  assert (Hnone : forall held', mx_of op (t_max t) = maxc s -> dd_of t op = false ->
+            op_act s held tid op = Some ([], held') ->
+            exists s' held'' o, op_step s held tid op = Some (s', held'', o) /\ Sim s' held'' (fst (cl_op t op o)) /\
                forallb (fun c : Z * Z * bool => snd c) (snd (cl_op t op o)) = true).
-  { intros Em Ed Ea. unfold op_step. rewrite Ea. eexists _, _. split; [reflexivity|].
+  { intros held' Em Ed Ea. unfold op_step. rewrite Ea. eexists _, _, _. split; [reflexivity|].
     rewrite cl_op_eq. cbn [fst snd]. change (exec s []) with s.
-    apply (finish_step s t s (mx_of op (t_max t)) (dd_of op) S H); try congruence.
+    apply (finish_step s held t s held' (mx_of op (t_max t)) (dd_of t op) S H AB); try congruence.
     - exists []. now rewrite app_nil_r.
     - now left. }
-  assert (Hone : forall a, op_act s tid op = Some [a] ->
+  assert (Hone : forall a held', op_act s held tid op = Some ([a], held') ->
+            (forall t0, a <> ARecv t0) -> (forall t0, a <> ARetry t0) ->
             mx_of op (t_max t) = match a with ASettings v => v | _ => maxc s end ->
-            dd_of op = match a with ADead _ => true | _ => false end ->
-            exists s' o, op_step s tid op = Some (s', o) /\ Sim s' (fst (cl_op t op o)) /\
+            dd_of t op = match a with ADead _ => true | _ => false end ->
+            (dd_of t op = true -> held_in s held' = []) ->
+            exists s' held'' o, op_step s held tid op = Some (s', held'', o) /\ Sim s' held'' (fst (cl_op t op o)) /\
                forallb (fun c : Z * Z * bool => snd c) (snd (cl_op t op o)) = true).
-  { intros a Ea Em Ed. unfold op_step. rewrite Ea. eexists _, _. split; [reflexivity|].
+  { intros a held' Ea N1 N2 Em Ed Eh. unfold op_step. rewrite Ea. eexists _, _, _. split; [reflexivity|].
     rewrite cl_op_eq. cbn [fst snd]. change (exec s [a]) with (fst (astep s a)).
     destruct (one_act s a H Hd) as (I1 & A1 & Q1 & M1 & D1 & DA). cbn zeta in *.
-    apply (finish_step s t (fst (astep s a)) (mx_of op (t_max t)) (dd_of op) S I1 A1 Q1); try congruence.
-    rewrite Ed, <- D1. exact DA. }
-  apply op_wf_shape in Hw. destruct Hw as [|v|k h|k|k|w].
-  - apply (Hone (AFirst tid)); [reflexivity|cbn; congruence|reflexivity].
-  - apply (Hone (ASettings v)); reflexivity.
-  - assert (Ea : op_act s tid [3; k; h] =
-                  match nth_mod k (open s) with Some id => Some [AClose id] | None => Some [] end) by reflexivity.
+    assert (AB1 : all_blocked (fst (astep s a))).
+    { intros t0 p Hi. destruct (opact_thr s a N1 N2 _ Hi) as [(g & E)|I]; [cbn in E; eauto|now apply (AB t0 p)]. }
+    apply (finish_step s held t (fst (astep s a)) held' (mx_of op (t_max t)) (dd_of t op) S I1 AB1 A1 Q1); try congruence.
+    intros E. split; [apply DA; congruence|].
+    (* ADead does not touch the thread table *)
+    rewrite Ed in E. destruct a; try discriminate E. specialize (Eh ltac:(congruence)).
+    unfold held_in in *. unfold astep. rewrite Hd. cbn. exact Eh. }
+  apply op_wf_shape in Hw. destruct Hw as [|v|k h|k|k|w| |k].
+  - apply (Hone (AFirst tid) held); try reflexivity; try discriminate. cbn; congruence.
+  - apply (Hone (ASettings v) held); try reflexivity; try discriminate.
+  - assert (Ea : op_act s held tid [3; k; h] =
+                  match nth_mod k (open s) with Some id => Some ([AClose id], held) | None => Some ([], held) end) by reflexivity.
     destruct (nth_mod k (open s)) as [id|].
-    + apply (Hone (AClose id)); [exact Ea|cbn; congruence|reflexivity].
-    + apply Hnone; [cbn; congruence|reflexivity|exact Ea].
-  - assert (Ea : op_act s tid [4; k] =
-                  match nth_mod k (map fst (thr s)) with Some t => Some [ALeave t] | None => Some [] end) by reflexivity.
-    destruct (nth_mod k (map fst (thr s))) as [t0|].
-    + apply (Hone (ALeave t0)); [exact Ea|cbn; congruence|reflexivity].
-    + apply Hnone; [cbn; congruence|reflexivity|exact Ea].
-  - apply (Hone (ADead k)); [reflexivity|cbn; congruence|reflexivity].
-  - apply Hnone; [cbn; congruence|reflexivity|reflexivity].
+    + apply (Hone (AClose id) held); try exact Ea; try discriminate; try reflexivity. cbn; congruence.
+    + apply (Hnone held); [cbn; congruence|reflexivity|exact Ea].
+  - assert (Ea : op_act s held tid [4; k] =
+                  match nth_mod k (parked s held) with Some t0 => Some ([ALeave t0], held) | None => Some ([], held) end) by reflexivity.
+    destruct (nth_mod k (parked s held)) as [t0|].
+    + apply (Hone (ALeave t0) held); try exact Ea; try discriminate; try reflexivity. cbn; congruence.
+    + apply (Hnone held); [cbn; congruence|reflexivity|exact Ea].
+  - assert (Ea : op_act s held tid [5; k] =
+                  match held_in s held with [] => Some ([ADead k], held) | _ => Some ([], []) end) by reflexivity.
+    assert (Edd : dd_of t [5; k] = match held_in s held with [] => true | _ => false end).
+    { cbn. rewrite Tn. destruct (held_in s held); reflexivity. }
+    destruct (held_in s held) as [|h0 hr] eqn:Eh.
+    + apply (Hone (ADead k) held); try exact Ea; try discriminate; try exact Edd. cbn; congruence. intros _. exact Eh.
+    + apply (Hnone []); [cbn; congruence|exact Edd|exact Ea].
+  - apply (Hnone held); [cbn; congruence|reflexivity|reflexivity].
+  - apply (Hone (AFirst tid) (tid :: held)); try reflexivity; try discriminate. cbn; congruence.
+  - assert (Ea : op_act s held tid [8; k] =
+                  match nth_mod k (held_in s held) with Some t0 => Some ([], remove_z t0 held) | None => Some ([], held) end) by reflexivity.
+    destruct (nth_mod k (held_in s held)) as [t0|].
+    + apply (Hnone (remove_z t0 held)); [cbn; congruence|reflexivity|exact Ea].
+    + apply (Hnone held); [cbn; congruence|reflexivity|exact Ea].
 Qed.
 
-Lemma go_holds : forall ops s t tid, Sim s t -> forallb op_wf ops = true ->
-  exists obs, go s tid ops = Some obs /\
+Lemma go_holds : forall ops s held t tid, Sim s held t -> forallb op_wf ops = true ->
+  exists obs, go s held tid ops = Some obs /\
               forallb (fun c : Z * Z * bool => snd c) (cl_go t ops obs) = true.
 Proof.
-  induction ops as [|op ops IH]; cbn [go cl_go forallb]; intros s t tid S Hw.
+  induction ops as [|op ops IH]; cbn [go cl_go forallb]; intros s held t tid S Hw.
   - exists []. split; reflexivity.
-  - pose proof S as (_ & _ & _ & _ & Td). rewrite Td.
+  - pose proof S as (_ & _ & _ & _ & _ & _ & Td). rewrite Td.
     destruct (dead s) eqn:Hd; [exists []; split; reflexivity|].
     apply andb_true_iff in Hw as [Hop Hr].
-    destruct (op_step_ok s t tid op S Hd Hop) as (s' & o & E & S' & F). rewrite E.
-    destruct (IH s' _ (tid + 1) S' Hr) as (obs & G & C). rewrite G.
+    destruct (op_step_ok s held t tid op S Hd Hop) as (s' & held' & o & E & S' & F). rewrite E.
+    destruct (IH s' held' _ (tid + 1) S' Hr) as (obs & G & C). rewrite G.
     exists (o :: obs). split; [reflexivity|].
     destruct (cl_op t op o) as [t' cs]. cbn [fst snd] in *. now rewrite forallb_app, F, C.
 Qed.
@@ -940,14 +1090,15 @@ Theorem model_trace_holds m0 ops : forallb op_wf ops = true ->
   exists obs, run [m0] ops = Some obs /\ holds_b [m0] ops obs = true.
 Proof.
   intros Hw. unfold run, holds_b, clauses. apply go_holds; [|assumption].
-  unfold Sim. cbn. split; [apply init_inv|]. repeat split; reflexivity.
+  unfold Sim. cbn. split; [apply init_inv|]. repeat split; try reflexivity. intros t p [].
 Qed.
 
 (* every state the case runner passes through is reached by atomic steps only *)
-Lemma op_step_reach s tid op s' o : Inv s -> op_step s tid op = Some (s', o) -> exists acts, s' = exec s acts.
+Lemma op_step_reach s held tid op s' held' o : Inv s ->
+  op_step s held tid op = Some (s', held', o) -> exists acts, s' = exec s acts.
 Proof.
-  intros H. unfold op_step. destruct (op_act s tid op) as [acts|]; [|discriminate].
+  intros H. unfold op_step. destruct (op_act s held tid op) as [[acts h']|]; [|discriminate].
   intros E. inversion E; subst.
-  destruct (settle_spec (fuel_of (exec s acts)) (exec s acts) (exec_inv acts s H)) as (l & _ & El & _).
+  destruct (settle_spec (fuel_of (exec s acts)) held' (exec s acts) (exec_inv acts s H)) as (l & _ & El & _).
   exists (acts ++ l). rewrite exec_app. exact El.
 Qed.
